@@ -243,7 +243,7 @@ err_t btokBAuthCTStart(void* state, const bign_params* params,
 	s->R = s->V + no;
 	// настроить заголовок
 	s->hdr.keep = sizeof(bake_bauth_ct_o) + objKeep(s->ec) +
-		3 * O_OF_W(n) + no + no / 2;
+		2 * O_OF_W(n) + no + no / 2;
 	s->hdr.p_count = 4;
 	s->hdr.o_count = 1;
 	// загрузить личный ключ
